@@ -311,6 +311,12 @@ class World:
         shown = {a: int(r[1]) for (a, _h), r in self.sim.get_data_memory_entries()}
         if shown != backing:
             checks.append(("memory-table", "get_data_memory_entries() differs from wordwise_repr() of the memory system"))
+        lower = getattr(self.mem, "memory", None)  # the backing Memory object the property names
+        if lower is not None and hasattr(lower, "wordwise_repr"):
+            direct = {a: int(r[1]) for a, r in lower.wordwise_repr().items()}
+            if direct != backing:
+                a = sorted(set(direct) ^ set(backing) | {x for x in direct if x in backing and direct[x] != backing[x]})[0]
+                checks.append(("memory-table", f"the table of the cached memory system shows {backing.get(a)} at {a:#x}, the backing memory holds {direct.get(a)}"))
 
     def check_readback(self, checks):
         """Destructive on the cache state — only used on throw-away objects, after the state key was taken."""
